@@ -453,13 +453,31 @@ def totality_cases(ctx):
     # times / date-times built with an offset DURATION of a day or more (accepted by time(h, m, s, offset)) in every operation that needs the
     # instant, and sums of years-and-months durations at the ends of i64 printed / negated / compared (two panics found on the unchanged tree by
     # an outsider: FixedOffset::east out of bounds, i64::abs overflow in Display; fixed in /repo 745797a, a5568f0)
-    offs = ['duration("P1D")', 'duration("-P1D")', 'duration("PT24H")', 'duration("PT23H59M59S")', 'duration("P2D")', 'duration("-PT36H")', 'duration("P999999D")', 'duration("PT0S")']
+    # (the offset is narrowed to 32 bits: -2^31 seconds made Display for the zone negate i32::MIN, a panic in checked builds; found by an outsider, fixed in /repo d8d29d1)
+    offs = ['duration("P1D")', 'duration("-P1D")', 'duration("PT24H")', 'duration("PT23H59M59S")', 'duration("P2D")', 'duration("-PT36H")', 'duration("P999999D")', 'duration("PT0S")',
+            'duration("-PT2147483648S")', 'duration("PT2147483648S")', 'duration("PT2147483647S")', 'duration("-PT2147483649S")', 'duration("PT4294967296S")', 'duration("-PT6442450944S")']
     for o in offs:
         t = 'time(10, 0, 0, %s)' % o
         for e in ('%s = %s', '%s != time("10:00:00Z")', '%s < %s', '%s - time("09:00:00Z")', 'string(%s)', '(%s).time offset', '%s in [time("00:00:00Z")..time("23:59:59Z")]',
                   '%s between time("00:00:00Z") and %s', 'date and time(date("2021-03-28"), %s) = date and time("2021-03-28T10:00:00Z")',
                   'date and time(date("2021-03-28"), %s) - date and time("2021-03-28T10:00:00Z")', 'date and time(date("999999999-12-31"), %s) > date and time("2021-03-28T10:00:00Z")'):
             add('offset-duration', e.replace('%s', t))
+    # user-defined functions with typed parameters / a typed result called with every shape of argument: the coercion (conforms / singleton list in both
+    # directions / null) meets empty lists, nested empty lists, nulls and values of other types (seeded change C05_h: `[]` into a scalar parameter indexed item 0)
+    tps = ['number', 'string', 'boolean', 'date', 'time', 'date and time', 'days and time duration', 'years and months duration', 'Any', 'Null', 'list<number>', 'list<Any>', 'list<list<number>>',
+           'context<a: number>', 'range<number>', 'function<number> -> number']
+    tvs = ['[]', '[[]]', '[[[]]]', '[null]', '[1]', '[1, 2]', '[[1]]', '[[], []]', 'null', '1', '"a"', 'true', '{}', '{a: 1}', '[{}]', '[{a: 1}]', '[1..2]', '[[1..2]]', '[1, 2][item > 5]', '[[]][1]',
+           '[function(x: number) x]', 'function(x: number) x', '[date("2021-01-01")]', '[@"PT1H"]', '[[]][item = []]']
+    for tp in tps:
+        for v in (tvs if not ctx.quick else rng.sample(tvs, 12)):
+            add('typed-param', '(function(x: %s) x)(%s)' % (tp, v))
+            k = rng.random()
+            if k < 0.3:
+                add('typed-param', '{f: function(a: %s) a, r: f(a: %s)}.r' % (tp, v))
+            elif k < 0.5:
+                add('typed-param', '(function(x: %s, y: %s) [x, y])(%s, %s)' % (tp, rng.choice(tps), v, rng.choice(tvs)))
+            elif k < 0.6:
+                add('typed-param', 'count((function(x: %s) x)(%s))' % (tp, v))
     ends = ['duration("P768614336404564650Y7M")', 'duration("-P768614336404564650Y7M")', 'duration("P1M")', 'duration("-P1M")', 'duration("P768614336404564650Y")', 'duration("-P768614336404564650Y8M")']
     for a in ends:
         for b in ends:
